@@ -479,7 +479,7 @@ def strip_order(snap):
 CONTENTS = ["A", "B", "AA", "BB", "CCC", ""]
 MTIMES = [1000, 2000, 3000]
 TOP_FILES = ["x", "y.txt", "log.out", "data.bin"]
-NESTED = ["sub/y", "sub/x", "sub/deep/z", "other/w"]
+NESTED = ["sub/y", "sub/x", "sub/deep/z", "other/w", "other/lvl2/lvl3/v"]
 EMPTY_DIRS = ["emp", "sub/emp2"]
 EDGE_FILES = ["tags", ".git/cfg", "sub/CVS", "signac_statepoint.json.bak", "signac_job_documentXjson", "sub/signac_job_document.json",
               "sub/signac_statepoint.json"]
@@ -568,6 +568,8 @@ def rand_job_pair(rng, sp, p):
             dj["doc"] = perturb_doc(rng, sj["doc"], depth, p["dconflict"])
         else:
             dj["doc"] = rand_doc(rng, depth) if rng.random() < 0.8 else {}
+    if dj.get("doc") and rng.random() < p.get("stale", 0.05):
+        dj["files"][FN_DOC + "~"] = [rng.choice(['{"old": 1}', "xx"]), rng.choice(MTIMES)]    # stale backup file
     if rng.random() < p.get("funny", 0.03) and sj["files"]:
         n = rng.choice(list(sj["files"]))
         if "/" not in n and n not in dj["files"]:
@@ -613,6 +615,8 @@ def rand_pair(rng, p):
         src["pdoc"] = rand_doc(rng, 2)
     if rng.random() < p["pdoc"]:
         dst["pdoc"] = perturb_doc(rng, src["pdoc"], 2, p["dconflict"]) if "pdoc" in src and rng.random() < 0.8 else rand_doc(rng, 2)
+    if dst.get("pdoc") and rng.random() < p.get("stale", 0.05):
+        dst["top_files"] = {FN_PDOC + "~": ['{"old": 1}', 1000]}
     return src, dst
 
 
@@ -697,7 +701,7 @@ PROFILES = {
                 exclude=0.3, selection=0.3, recursive=0.5, noschema=0.7, job_entry=0.3),
     # conflict-oriented
     "C14": dict(density=0.5, doc=0.85, pdoc=0.5, fconflict=0.5, dconflict=0.5,
-                strat=[3, 2, 2, 3, 3], docs=[3, 2, 4, 3, 2, 1, 1], dry=0.0, deep=0.0, parallel=0.0,
+                strat=[3, 2, 2, 3, 3], docs=[3, 2, 4, 3, 2, 1, 1], dry=0.0, deep=0.25, parallel=0.0,
                 exclude=0.15, selection=0.15, recursive=0.6, noschema=0.8, job_entry=0.4),
     # option-oriented
     "C15": dict(density=0.45, doc=0.7, pdoc=0.5, fconflict=0.35, dconflict=0.3,
@@ -804,4 +808,67 @@ def core_doc_cases(dries=(False,)):
                         if dry:
                             opts["dry_run"] = True
                         out.append({"src": src, "dst": dst, "opts": opts, "entry": entry})
+    return out
+
+
+def core_nested_cases(deeps=(False,)):
+    """Deep trees whose intermediate levels are identical on both sides: the only difference sits 3 or 4 levels down
+    (an extra source file, or a differing file — also with equal size and mtime)."""
+    out = []
+    for chain in (["data", "run1"], ["data", "run1", "raw"], ["a", "b", "c", "d"]):
+        for same_level_file in (False, True):
+            for kind in ("extra", "differ", "differ_same_sig", "same"):
+                for strat in (None, "always", "never", "update"):
+                    for recursive in (False, True):
+                        for deep in deeps:
+                            for entry in ("Project.sync", ["sync_jobs", {"a": 0}, {"a": 0}]):
+                                leaf = "/".join(chain) + "/out.txt"
+                                sfiles, dfiles = {}, {}
+                                if same_level_file:       # identical files on the intermediate levels
+                                    for i in range(1, len(chain)):
+                                        p = "/".join(chain[:i]) + "/keep"
+                                        sfiles[p] = ["K", 1000]
+                                        dfiles[p] = ["K", 1000]
+                                sfiles[leaf] = ["AA", 2000]
+                                ddirs = []
+                                if kind == "extra":
+                                    ddirs = ["/".join(chain)]
+                                elif kind == "differ":
+                                    dfiles[leaf] = ["B", 1000]
+                                elif kind == "differ_same_sig":
+                                    dfiles[leaf] = ["BB", 2000]
+                                else:
+                                    dfiles[leaf] = ["AA", 2000]
+                                src = {"jobs": [{"sp": {"a": 0}, "files": sfiles, "dirs": []}]}
+                                dst = {"jobs": [{"sp": {"a": 0}, "files": dfiles, "dirs": ddirs}]}
+                                opts = {"strategy": strat, "recursive": recursive, "check_schema": False, "doc_sync": "nosync"}
+                                if deep:
+                                    opts["deep"] = True
+                                out.append({"src": src, "dst": dst, "opts": opts, "entry": entry})
+    return out
+
+
+def core_backup_cases(dries=(False,)):
+    """A stale '<document>~' backup file next to the destination document (create_backup must refuse it)."""
+    out = []
+    pairs = [({"k": 1}, {"k": 2}), ({"k": 1, "n": 3}, {"k": 1}), ({"k": 1}, {"k": 1}), ({"k": 1}, {}), ({"k": {"p": 1}}, {"k": 5}),
+             ({"n": {"p": 1, "q": 2}}, {"n": {"p": 1}, "k": 0})]
+    for sdoc, ddoc in pairs:
+        for stale in ('{"old": true}', "garbage"):
+            for ds in (None, ["bykey", ["pred", ["k"]]], "update", "nosync", "copy"):
+                for level in ("job", "project"):
+                    for dry in dries:
+                        for strat in (None, "always"):
+                            if level == "job":
+                                src = {"jobs": [{"sp": {"a": 0}, "files": {}, "dirs": [], "doc": sdoc}]}
+                                dst = {"jobs": [{"sp": {"a": 0}, "files": {FN_DOC + "~": [stale, 1000]}, "dirs": [], "doc": ddoc}]}
+                                entry = ["Job.sync", {"a": 0}, {"a": 0}] if len(out) % 2 else "Project.sync"
+                            else:
+                                src = {"jobs": [{"sp": {"a": 0}, "files": {"x": ["A", 1000]}, "dirs": []}], "pdoc": sdoc}
+                                dst = {"jobs": [], "pdoc": ddoc, "top_files": {FN_PDOC + "~": [stale, 1000]}}
+                                entry = "sync_projects"
+                            opts = {"doc_sync": ds, "strategy": strat, "check_schema": False}
+                            if dry:
+                                opts["dry_run"] = True
+                            out.append({"src": src, "dst": dst, "opts": opts, "entry": entry})
     return out
